@@ -1,10 +1,11 @@
 import LinOp.Core.Parse
 import LinOp.C03.Front
+import LinOp.C03.InterpRoot
 /-! Prefix-expression parser building operator values (`Opv`) for the driver (core only).
 
 `D shape vals` dense · `G shape vals` Diag (`_diag` tensor) · `Z R C` · `T shape vals` Toeplitz column ·
 `K n op…` · `BD k op` · `BI k op` · `SB k op` · `BR sizes op` · `CR C n op…` · `CC R n op…` · `CB R C pos n (size op)…` ·
-`IP R C shape lidx lval shape ridx rval op` · `TR op` · `RT 0|1 op` · `MM mode a b` · `SU R C n op…` ·
+`IP R C shape lidx lval shape ridx rval op` · `IPR … root` (Interpolated over Root(dense): fast-path `_diagonal`) · `TR op` · `RT 0|1 op` · `MM mode a b` · `SU R C n op…` ·
 `CM shape vals op` · `MU a b` · `MK rowmap colmap op` · `TP m` · `FB shape vals` (base-class fallback over dense data). -/
 namespace LinOp.C03
 open LinOp.Parse
@@ -60,6 +61,12 @@ def parseOp : Nat → List String → Option (Opv × List String)
         let rs ← pShape rsh; let ri ← pInts ridx; let rv ← pInts rval
         let (o, rest) ← parseOp fuel rest
         pure (Opv.interp (← r.toNat?) (← c.toNat?) (interpList ls li lv) (interpList rs ri rv) o, rest)
+    | "IPR" :: r :: c :: lsh :: lidx :: lval :: rsh :: ridx :: rval :: rest => do
+        -- Interpolated over Root(dense root): `_diagonal` takes the fast path; the operand is the ROOT
+        let ls ← pShape lsh; let li ← pInts lidx; let lv ← pInts lval
+        let rs ← pShape rsh; let ri ← pInts ridx; let rv ← pInts rval
+        let (o, rest) ← parseOp fuel rest
+        pure (Opv.interpRoot (← r.toNat?) (← c.toNat?) (interpList ls li lv) (interpList rs ri rv) o, rest)
     | "TR" :: rest => do let (o, rest) ← parseOp fuel rest; pure (Opv.tri o, rest)
     | "RT" :: d :: rest => do let (o, rest) ← parseOp fuel rest; pure (Opv.root (d = "1") o, rest)
     | "MM" :: mode :: rest => do
